@@ -126,6 +126,16 @@ def run(prop, tier, replay=None):
             # concurrent part: seeded stress under the race detector, interval-validated by RegStressTrace.tla
             race = C.build_harness(scratch, race=True)
             nseeds, dur = (2, "3s") if tier == "quick" else (8, "20s")
+            # calibration: how a state without a backend answers, per protocol, in the sequential histories of this run
+            refuse = collections.defaultdict(set)
+            with open(trace) as tf:
+                for line in tf:
+                    if line.startswith('{"ev":"Probe"'):
+                        pe = json.loads(line)
+                        for o in pe["outs"]:
+                            if o["k"] in ("notfound", "unimplemented"):
+                                refuse[pe["proto"]].add(o["k"])
+            calib = json.dumps(dict(ev="Calib", refuse={p: sorted(v) for p, v in refuse.items()}))
             for k in range(nseeds):
                 st = scratch.path("stress%d.ndjson" % k)
                 p, _ = C.run([race, "regstress", "-out", st, "-seed", str(seed * 100 + k), "-dur", dur, "-maxreq", "30000"], timeout=1200,
@@ -136,6 +146,9 @@ def run(prop, tier, replay=None):
                                                  signature=dict(module="Registry", formula="DataRace"), cases=[], seed=seed, replay_driver="regstress")
                 if p.returncode != 0 and "WARNING: DATA RACE" not in p.stdout:
                     raise C.Infra("regstress driver failed:\n" + p.stdout[-3000:])
+                body = open(st).read()
+                with open(st, "w") as sf:
+                    sf.write(calib + "\n" + body)
                 res = C.tlc(scratch, "RegStressTrace.tla", "RegStressTrace.cfg", workers=1, env_extra={"TRACE": st}, timeout=1800, tag="stress%d" % k, heap="4g")
                 reps = list(C.printed(res["out"], "REPORT"))
                 nlines = sum(1 for _ in open(st))
